@@ -21,6 +21,8 @@ pub trait Ctx {
     fn cover(&mut self, name: &'static str, c: bool);
     /// concrete (non-symbolic) parameter of this evaluation, recorded for replay output only
     fn note(&mut self, _what: &'static str, _v: usize) {}
+    /// human-readable rendering of the generated input, for replay output only (never evaluated under Kani)
+    fn describe<F: FnOnce() -> String>(&mut self, _f: F) {}
 }
 
 /// reachability witness; Kani's cover needs a literal message, hence a macro
@@ -143,6 +145,7 @@ pub mod native {
         }
         fn cover(&mut self, _name: &'static str, _c: bool) {}
         fn note(&mut self, what: &'static str, v: usize) { self.drawn.push(format!("{what}={v}")); }
+        fn describe<F: FnOnce() -> String>(&mut self, f: F) { self.drawn.push(f()); }
     }
 
     /// Replays the byte vectors of a Kani concrete playback in draw order.
@@ -177,6 +180,7 @@ pub mod native {
         }
         fn cover(&mut self, _name: &'static str, _c: bool) {}
         fn note(&mut self, what: &'static str, v: usize) { self.drawn.push(format!("{what}={v}")); }
+        fn describe<F: FnOnce() -> String>(&mut self, f: F) { self.drawn.push(f()); }
     }
 
     pub type ContractFn<C> = fn(&mut C);
@@ -608,8 +612,121 @@ pub fn replay_bounded(unit: &str) -> Option<i32> {
     Some(match unit {
         "b_c03_apply_tagenv_lists" => run_grid(unit, contract_apply_tagenv_lists, limit),
         "b_c07_named_bits" => run_grid(unit, contract_named_bits, limit),
+        "b_c04_integer_set_expression" => run_grid(unit, contract_integer_set_expression, limit),
         "b_c14_enumerated_parser" => run_grid(unit, crate::lexer::verif_hook_enumerated::contract_enumerated_parser_quick, limit),
         "b_c14_enumerated_parser_full" => run_grid(unit, crate::lexer::verif_hook_enumerated::contract_enumerated_parser_full, limit),
         _ => return None,
     })
+}
+
+// ------------------------------------------------------------------------------------------------
+// C04 — folding of set expressions over INTEGER values to the PER-visible effective range
+// (per_visible.rs: TryFrom<&Constraint> for PerVisibleRangeConstraints -> fold_constraint_set,
+//  intersect_single_and_range, union_single_and_range, compare_optional_asn1values).
+// Bounded stand-in (native): expressions `a op1 (b op2 c)` / `a op b` / `a` — the only shapes the IR has — with
+// operands single value or range (ends literal or MIN/MAX) over a 7-point alphabet, operators | ^ EXCEPT.
+// ------------------------------------------------------------------------------------------------
+pub const C04_POINTS: [i128; 7] = [-129, -1, 0, 1, 5, 255, 256];
+#[derive(Clone, Copy)]
+struct Iv { lo: Option<i128>, hi: Option<i128> }   // None = unbounded (MIN / MAX)
+impl Iv {
+    fn contains(&self, v: i128) -> bool { self.lo.map_or(true, |l| l <= v) && self.hi.map_or(true, |h| v <= h) }
+    fn is_empty(&self) -> bool { matches!((self.lo, self.hi), (Some(l), Some(h)) if l > h) }
+}
+fn any_operand<C: Ctx>(cx: &mut C) -> (crate::intermediate::constraints::SubtypeElements, Iv) {
+    use crate::intermediate::constraints::SubtypeElements;
+    if cx.any_bool() {
+        let v = C04_POINTS[cx.choose(7)];
+        (SubtypeElements::SingleValue { value: ASN1Value::Integer(v), extensible: false }, Iv { lo: Some(v), hi: Some(v) })
+    } else {
+        let l = cx.choose(8);
+        let h = cx.choose(8);
+        let lo = if l == 7 { None } else { Some(C04_POINTS[l]) };
+        let hi = if h == 7 { None } else { Some(C04_POINTS[h]) };
+        (SubtypeElements::ValueRange { min: lo.map(ASN1Value::Integer), max: hi.map(ASN1Value::Integer), extensible: false }, Iv { lo, hi })
+    }
+}
+pub fn contract_integer_set_expression<C: Ctx>(cx: &mut C) {
+    use crate::intermediate::constraints::*;
+    use crate::intermediate::encoding_rules::per_visible::PerVisibleRangeConstraints;
+    let n = 1 + cx.choose(3);
+    let (a, ia) = any_operand(cx);
+    if !cx.assume(!ia.is_empty()) { return; }
+    let ops = [SetOperator::Union, SetOperator::Intersection, SetOperator::Except];
+    // true value set (membership) and reference PER-visible range (X.691 §10.3.21) of the expression
+    let set: ElementOrSetOperation;
+    let reference: Iv;
+    let member: Box<dyn Fn(i128) -> bool>;
+    if n == 1 {
+        set = ElementOrSetOperation::Element(a);
+        reference = ia;
+        member = Box::new(move |v| ia.contains(v));
+    } else {
+        let o1 = cx.choose(3);
+        let (b, ib) = any_operand(cx);
+        if !cx.assume(!ib.is_empty()) { return; }
+        let (rest, irest, mrest): (ElementOrSetOperation, Iv, Box<dyn Fn(i128) -> bool>) = if n == 2 {
+            (ElementOrSetOperation::Element(b), ib, Box::new(move |v| ib.contains(v)))
+        } else {
+            let o2 = cx.choose(3);
+            let (c, ic) = any_operand(cx);
+            if !cx.assume(!ic.is_empty()) { return; }
+            let r = combine(ib, ic, o2);
+            if !cx.assume(!r.is_empty()) { return; }
+            (ElementOrSetOperation::SetOperation(SetOperation { base: b, operator: ops[o2].clone(), operant: Box::new(ElementOrSetOperation::Element(c)) }), r,
+             Box::new(move |v| match o2 { 0 => ib.contains(v) || ic.contains(v), 1 => ib.contains(v) && ic.contains(v), _ => ib.contains(v) && !ic.contains(v) }))
+        };
+        reference = combine(ia, irest, o1);
+        if !cx.assume(!reference.is_empty()) { return; }
+        member = Box::new(move |v| match o1 { 0 => ia.contains(v) || mrest(v), 1 => ia.contains(v) && mrest(v), _ => ia.contains(v) && !mrest(v) });
+        set = ElementOrSetOperation::SetOperation(SetOperation { base: a, operator: ops[o1].clone(), operant: Box::new(rest) });
+    }
+    let constraint = Constraint::Subtype(ElementSetSpecs { set, extensible: false });
+    cx.describe(|| format!("expr={}", render_set(match &constraint { Constraint::Subtype(s) => &s.set, _ => unreachable!() })));
+    let folded: Result<PerVisibleRangeConstraints, _> = (&constraint).try_into();
+    match folded {
+        Ok(r) => {
+            let (lo, hi): (Option<i128>, Option<i128>) = (r.min(), r.max());
+            let got = Iv { lo, hi };
+            // never excludes a value that the ASN.1 constraint permits (probe points: every alphabet point +-1 and far out)
+            let mut ok = true;
+            let mut k = 0;
+            while k < 7 {
+                for d in [-1i128, 0, 1] {
+                    let v = C04_POINTS[k] + d;
+                    if member(v) && !got.contains(v) { ok = false; }
+                }
+                k += 1;
+            }
+            for v in [i128::MIN / 2, i128::MAX / 2] { if member(v) && !got.contains(v) { ok = false; } }
+            vob!(cx, "C04.fold.never_excludes_a_permitted_value", ok);
+            vob!(cx, "C04.fold.lower_bound_is_per_visible_effective", got.lo == reference.lo);
+            vob!(cx, "C04.fold.upper_bound_is_per_visible_effective", got.hi == reference.hi);
+            vob!(cx, "C04.fold.not_flagged_extensible_without_marker", !r.is_extensible());
+        }
+        Err(_) => { vob!(cx, "C04.fold.folds_without_error", false); }
+    }
+}
+#[cfg(not(kani))]
+fn render_set(e: &crate::intermediate::constraints::ElementOrSetOperation) -> String {
+    use crate::intermediate::constraints::*;
+    let elem = |s: &SubtypeElements| match s {
+        SubtypeElements::SingleValue { value: ASN1Value::Integer(v), .. } => format!("{v}"),
+        SubtypeElements::ValueRange { min, max, .. } => format!("{}..{}", match min { Some(ASN1Value::Integer(v)) => v.to_string(), _ => "MIN".into() }, match max { Some(ASN1Value::Integer(v)) => v.to_string(), _ => "MAX".into() }),
+        _ => "?".into(),
+    };
+    match e {
+        ElementOrSetOperation::Element(s) => elem(s),
+        ElementOrSetOperation::SetOperation(o) => format!("{} {} ({})", elem(&o.base), match o.operator { SetOperator::Union => "|", SetOperator::Intersection => "^", SetOperator::Except => "EXCEPT" }, render_set(&o.operant)),
+    }
+}
+#[cfg(kani)]
+fn render_set(_e: &crate::intermediate::constraints::ElementOrSetOperation) -> String { String::new() }
+/// X.691 §10.3.21: union -> hull, intersection -> intersection, EXCEPT -> the excepted part is ignored
+fn combine(a: Iv, b: Iv, op: usize) -> Iv {
+    match op {
+        0 => Iv { lo: match (a.lo, b.lo) { (Some(x), Some(y)) => Some(x.min(y)), _ => None }, hi: match (a.hi, b.hi) { (Some(x), Some(y)) => Some(x.max(y)), _ => None } },
+        1 => Iv { lo: match (a.lo, b.lo) { (Some(x), Some(y)) => Some(x.max(y)), (x, None) => x, (None, y) => y }, hi: match (a.hi, b.hi) { (Some(x), Some(y)) => Some(x.min(y)), (x, None) => x, (None, y) => y } },
+        _ => a,
+    }
 }
